@@ -90,6 +90,10 @@ fn build_arg(items: &[Sx]) -> Arg {
             "global" => a.global(true),
             "hide" => a.hide(true),
             "required" => a.required(true),
+            // conflicts_with_all: only the zsh generator reads it (exclusion lists)
+            "cx" => a.conflicts_with_all(l.iter().map(|x| s(x)).collect::<Vec<String>>()),
+            // descriptive text (read by the generator-model streams that compare whole scripts; not dumped)
+            "help" => a.help(s(op(l))),
             h => panic!("spec: unknown arg item {h}"),
         };
     }
@@ -115,6 +119,7 @@ pub fn build_cmd(items: &[Sx]) -> Command {
             "no-help-sub" => c.disable_help_subcommand(true),
             "arg" => c.arg(build_arg(l)),
             "cmd" => c.subcommand(build_cmd(l)),
+            "about" => c.about(s(op(l))),
             h => panic!("spec: unknown cmd item {h}"),
         };
     }
